@@ -49,6 +49,7 @@ type Out struct {
 	files    []*os.File
 	seen     map[string]bool
 	maxFails int
+	fails    *os.File // probe failures, one JSON object per line, written and synced at once: they survive a death of the process
 }
 
 func NewOut(dir, stream string, seed uint64, tier string) *Out {
@@ -63,6 +64,9 @@ func NewOut(dir, stream string, seed uint64, tier string) *Out {
 	}
 	o.req = bufio.NewWriterSize(o.files[0], 1<<20)
 	o.impl = bufio.NewWriterSize(o.files[1], 1<<20)
+	if f, err := os.Create(filepath.Join(dir, stream+".fails.jsonl")); err == nil {
+		o.fails = f
+	}
 	return o
 }
 
@@ -89,7 +93,14 @@ func (o *Out) Check(property, probe string) { o.meta.ProbeChecks[property+"/"+pr
 
 func (o *Out) Fail(property, probe, what, input, expected, actual string) {
 	if len(o.meta.ProbeFailures) < o.maxFails {
-		o.meta.ProbeFailures = append(o.meta.ProbeFailures, ProbeFailure{property, probe, what, input, truncate(expected, 2000), truncate(actual, 2000)})
+		pf := ProbeFailure{property, probe, what, input, truncate(expected, 2000), truncate(actual, 2000)}
+		o.meta.ProbeFailures = append(o.meta.ProbeFailures, pf)
+		if o.fails != nil {
+			if b, err := json.Marshal(pf); err == nil {
+				o.fails.Write(append(b, '\n'))
+				o.fails.Sync()
+			}
+		}
 	}
 }
 
